@@ -229,6 +229,15 @@ def run(ctx):
     counting.cnt2(ctx, lib)
     counting.chr1(ctx, lib)
     counting.fch1(ctx, lib)
+    counting.scp1(ctx, lib)
+    # LBL-3 (shared with C05): the trie lookup reuses an edge only under equal repetition maxima
+    from .C05 import lbl3
+    ctx.rule("LBL-3", "the trie lookup reuses an existing edge unchanged only under a dominating equality of the two labels' repetition maxima")
+    lbl3(ctx, lib)
+    # HIS-2 (shared with C10): build() does not consume or alter the builder's test cases, so every build() answers for the same set
+    from .C10 import his2
+    ctx.rule("HIS-2", "build() leaves the builder's state as it found it up to the idempotent canonicalisation of the test-case vector")
+    his2(ctx, lib)
     # ESCP-2 (b), shared with C11: the literal printer applies the escaper on every path before it prints a grapheme
     from .C11 import literal_printer_escapes
     from .C01 import find_escape_entry as _fee
